@@ -572,7 +572,8 @@ def part_offset(ctx, shard):
                                 ctx.violation(base + "|mode=wrong-value", case, np.asarray(want).tolist(), {"value": np.asarray(res.d).tolist(), "units": str(res.units), "abs_si": np.asarray(got).tolist()})
 
 
-EXTRA_LEAVES = ["erg", "J", "1/(N*m)", "Pa", "cm**2/N", "N/cm**2", "1/s", "kHz", "1/m", "km/s/Mpc", "Mpc", "g/kg", "percent", "m**2/cm", "hr/s"]
+EXTRA_LEAVES = ["erg", "J", "1/(N*m)", "Pa", "cm**2/N", "N/cm**2", "1/s", "kHz", "1/m", "km/s/Mpc", "Mpc", "g/kg", "percent", "m**2/cm", "hr/s",
+                "eV", "keV", "fm", "am", "Mpc**3", "kpc**3"]  # the last six: pairs whose SI sizes are both tiny (or both huge)
 
 
 def part_extra(ctx, shard):
